@@ -4,7 +4,7 @@
 (* record per root operation {"ev":"round","ph":..,"w":..,"res":{k,v},"acc":[accesses]} as observed.   *)
 (*  Strict = FALSE (predicate mode, raises alarms): the step relation is free - a round record is     *)
 (*    appended to `log` - and the C11_/C12_ predicates are evaluated on every recorded prefix;        *)
-(*    every failing (run, predicate) is printed as <<"JUDGE", record, run, <<names>>>>.               *)
+(*    every failing (run, predicate) is printed as <<"JUDGE", "{l, run, failing: [names]}">>.         *)
 (*  Strict = TRUE (binds the spec): each round record must be the machine's next action with the same *)
 (*    phase, waker id, root result and the same MULTISET of accesses (intra-round order is free).     *)
 EXTENDS Combinators, TLCExt, Integers
@@ -39,7 +39,7 @@ TSpec == TInit /\ [][TNext]_tvars
 
 \* predicate mode: report, do not stop (all recorded runs are judged in one pass)
 Judge == \/ run < 0 \/ Strict
-         \/ LET f == Failing(T, req, cfg, log) IN f = <<>> \/ PrintT(<<"JUDGE", l, run, f>>)
+         \/ LET f == Failing(T, req, cfg, log) IN f = <<>> \/ PrintT(<<"JUDGE", ToJson([l |-> l, run |-> run, failing |-> f])>>)
 
 TraceAccepted ==
   LET n == TLCGet("stats").diameter - 1 IN
